@@ -20,8 +20,10 @@ type delegation struct {
 	subText    string
 	scalarArgs map[string]string    // callee float64 parameter → argument (an atom)
 	seriesArg  map[string]*variable // callee series parameter → this function's series (absent: nil)
-	lhs        []*variable          // the variables that receive the callee's results
-	retText    string               // the tuple this branch returns, in terms of the variables in scope after the call
+	seriesExpr map[string]string    // callee series parameter → per-step expression over this function's input series (a derived temporary)
+	seriesDesc map[string]string
+	lhs        []*variable // the variables that receive the callee's results
+	retText    string      // the tuple this branch returns, in terms of the variables in scope after the call
 	nret       int
 }
 
@@ -38,11 +40,18 @@ func (d *delegation) describe() string {
 func (k *kernel) returningBranch(s *ast.IfStmt, cond string, last *ast.ReturnStmt) {
 	rel, line := k.relPos(s)
 	why := "the body is not `[x =] Callee(args…); return …` with a kernel function of the module as callee"
-	if len(s.Body.List) == 2 {
+	// leading statements that build a temporary series element-wise from series parameters:
+	//   X := data.NewArray1DFloat64(S.Len1()); X.CopyFrom(S); data.AddToFloat64Array(X, T)   ↦   X at step t = S + T
+	bodyList := s.Body.List
+	k.derived = map[string]string{}
+	for len(bodyList) > 2 && k.derivedSeriesStmt(bodyList[0]) {
+		bodyList = bodyList[1:]
+	}
+	if len(bodyList) == 2 {
 		var call *ast.CallExpr
 		var lhs []ast.Expr
 		tok := token.ILLEGAL
-		switch st := s.Body.List[0].(type) {
+		switch st := bodyList[0].(type) {
 		case *ast.ExprStmt:
 			call, _ = st.X.(*ast.CallExpr)
 		case *ast.AssignStmt:
@@ -81,7 +90,7 @@ func (k *kernel) returningBranch(s *ast.IfStmt, cond string, last *ast.ReturnStm
 func (k *kernel) delegate(call *ast.CallExpr, r *funcRef, lhs []ast.Expr, tok token.Token, ret *ast.ReturnStmt, cond string,
 	whole bool) *delegation {
 	d := &delegation{nLets: len(k.preLets), cond: cond, whole: whole, callee: r.fd.Name.Name, scalarArgs: map[string]string{},
-		seriesArg: map[string]*variable{}}
+		seriesArg: map[string]*variable{}, seriesExpr: map[string]string{}, seriesDesc: map[string]string{}}
 	d.rel, d.line = k.relPos(call)
 	ps := k.flatten(r)
 	if len(ps) != len(call.Args) || call.Ellipsis.IsValid() {
@@ -100,6 +109,12 @@ func (k *kernel) delegate(call *ast.CallExpr, r *funcRef, lhs []ast.Expr, tok to
 			id, _ := a.(*ast.Ident)
 			var v *variable
 			if id != nil {
+				if e, ok := k.derived[id.Name]; ok && k.lookup(id.Name) == nil { // a temporary series built element-wise
+					d.seriesExpr[pa.name] = e
+					d.seriesDesc[pa.name] = id.Name + " (= " + e + " at every step)"
+					k.w.derivedUse[k.w.current] = true
+					continue
+				}
 				v = k.lookup(id.Name)
 			}
 			if v == nil || v.kind != vSeries || v.isNil {
@@ -136,12 +151,18 @@ func (k *kernel) delegate(call *ast.CallExpr, r *funcRef, lhs []ast.Expr, tok to
 	}
 	// the callee's series in terms of this function's
 	for _, s := range sub.inputs {
+		if _, ok := d.seriesExpr[s.name]; ok {
+			continue
+		}
 		v := d.seriesArg[s.name]
 		if k.outVar[v] != nil {
 			k.fail(call, "series %s is written by this function and read by %s", v.name, d.callee)
 		}
 	}
 	for _, s := range sub.outputs {
+		if _, ok := d.seriesExpr[s.name]; ok {
+			k.fail(call, "the temporary series passed as %s is written by %s", s.name, d.callee)
+		}
 		v := d.seriesArg[s.name]
 		if k.outVar[v] == nil || passedOut[v] {
 			k.fail(call, "series %s is written by %s: not an output of this function, or passed twice", v.name, d.callee)
@@ -224,7 +245,9 @@ func (k *kernel) renderDelegation(all, preLets string) string {
 	}
 	var maps []string
 	for _, s := range sub.series {
-		if v, ok := d.seriesArg[s.name]; ok {
+		if e, ok := d.seriesDesc[s.name]; ok {
+			maps = append(maps, s.name+" := "+e)
+		} else if v, ok := d.seriesArg[s.name]; ok {
 			maps = append(maps, s.name+" := "+v.name)
 		} else {
 			maps = append(maps, s.name+" := nil")
@@ -262,6 +285,10 @@ func (k *kernel) renderDelegation(all, preLets string) string {
 	}
 	var ins []string
 	for _, s := range sub.inputs {
+		if e, ok := d.seriesExpr[s.name]; ok {
+			ins = append(ins, "("+e+")")
+			continue
+		}
 		ins = append(ins, d.seriesArg[s.name].lean)
 	}
 	fmt.Fprintf(&b, "/-- one iteration of the loop of `%s`, in terms of this function's parameters and series (an output it does not write keeps `Num.zero`) -/\n", d.callee)
@@ -302,4 +329,69 @@ func (k *kernel) renderDelegation(all, preLets string) string {
 		fmt.Fprintf(&b, "  %s\n", d.retText)
 	}
 	return b.String()
+}
+
+// one of the statements that build a temporary series element-wise from series parameters (see returningBranch)
+func (k *kernel) derivedSeriesStmt(st ast.Stmt) bool {
+	seriesExpr := func(e ast.Expr) (string, bool) {
+		id, ok := e.(*ast.Ident)
+		if !ok {
+			return "", false
+		}
+		if x, ok := k.derived[id.Name]; ok && k.lookup(id.Name) == nil {
+			return x, true
+		}
+		if v := k.lookup(id.Name); v != nil && v.kind == vSeries && !v.isNil && k.outVar[v] == nil {
+			return v.lean, true
+		}
+		return "", false
+	}
+	dataPkg := func(e ast.Expr, name string) bool {
+		return isSel(e, "data", name) && k.lookup("data") == nil && k.imp["data"] == k.w.module+"/data"
+	}
+	switch st := st.(type) {
+	case *ast.AssignStmt: // X := data.NewArray1DFloat64(S.Len1())
+		if st.Tok != token.DEFINE || len(st.Lhs) != 1 || len(st.Rhs) != 1 {
+			return false
+		}
+		id, ok := st.Lhs[0].(*ast.Ident)
+		c, ok2 := st.Rhs[0].(*ast.CallExpr)
+		if !ok || !ok2 || !dataPkg(c.Fun, "NewArray1DFloat64") || len(c.Args) != 1 || k.lookup(id.Name) != nil {
+			return false
+		}
+		if lc, ok := c.Args[0].(*ast.CallExpr); ok && len(lc.Args) == 0 {
+			if sel, ok := lc.Fun.(*ast.SelectorExpr); ok && sel.Sel.Name == "Len1" {
+				if _, ok := seriesExpr(sel.X); ok {
+					k.derived[id.Name] = "Num.zero"
+					return true
+				}
+			}
+		}
+	case *ast.ExprStmt:
+		c, ok := st.X.(*ast.CallExpr)
+		if !ok {
+			return false
+		}
+		if sel, ok := c.Fun.(*ast.SelectorExpr); ok && sel.Sel.Name == "CopyFrom" && len(c.Args) == 1 { // X.CopyFrom(S)
+			if id, ok := sel.X.(*ast.Ident); ok {
+				if _, isDerived := k.derived[id.Name]; isDerived && k.lookup(id.Name) == nil {
+					if e, ok := seriesExpr(c.Args[0]); ok {
+						k.derived[id.Name] = e
+						return true
+					}
+				}
+			}
+		}
+		if dataPkg(c.Fun, "AddToFloat64Array") && len(c.Args) == 2 { // data.AddToFloat64Array(X, T): X[i] += T[i]
+			if id, ok := c.Args[0].(*ast.Ident); ok {
+				if cur, isDerived := k.derived[id.Name]; isDerived && k.lookup(id.Name) == nil {
+					if e, ok := seriesExpr(c.Args[1]); ok {
+						k.derived[id.Name] = cur + " + " + e
+						return true
+					}
+				}
+			}
+		}
+	}
+	return false
 }
